@@ -393,6 +393,7 @@ func checkC10(c *Ctx) Meta {
 	c.aliasFrom, c.aliasTo = "", ""
 	delete(c.Rules, "C07-OWN")
 	delete(c.Floors, "C07-OWN")
+	checkMapALoadedByProgressOnly(c, "C10-READY")
 	c.Rule("C10-KEEPER", "the keeper never takes an unfinished plot for a finished one: after a plot run the plotter moves the space to ready or mining only behind `Progress() >= 100` of the plotted space, evaluated after Plot returned", 2)
 	checkStep3(c, "C10-KEEPER", pkgCapacity, "capacity")
 	c.Rule("C10-READY", "readiness is derived from B's checkpoint: HashMapB.Progress compares checkpoint with volume; MassDBV1.Progress forwards it; NewWorkSpace stores Ready only under that flag; OpenDB loads map A whenever B is not final", 4)
@@ -1460,5 +1461,87 @@ func checkRemoveAfterPasses(c *Ctx, rule string) {
 				}
 			}
 		}
+	}
+}
+
+// checkMapALoadedByProgressOnly: in OpenDB the decision to load map A (i.e. to treat the space as
+// unfinished) is the plotted flag of map B's recorded checkpoint and nothing else (shared by C10-READY
+// and C11-STATE).
+func checkMapALoadedByProgressOnly(c *Ctx, rule string) {
+	f := c.MustFn(rule, "poc/engine/massdb/massdb.v1", "OpenDB")
+	if f == nil {
+		return
+	}
+	key := "OpenDB:unfinished-iff-recorded-progress-says-so"
+	loads := callsIn(f, pkgMassDBV1+".LoadHashMap")
+	prog := callsIn(f, "(*"+pkgMassDBV1+".HashMapB).Progress")
+	if len(loads) != 2 || len(prog) != 1 {
+		c.Bad(rule, key, c.Pos(f.Pos()), "reason=anchor-missing: the two LoadHashMap calls and HashMapB.Progress in OpenDB")
+		return
+	}
+	ldA := loads[1]
+	if instrDominates(loads[1], loads[0]) {
+		ldA = loads[0]
+	}
+	plotted := resultOf(prog[0], 0)
+	// the innermost test dominating the load of map A
+	var test *ssa.If
+	allInstrs(f, func(in ssa.Instruction) {
+		iff, ok := in.(*ssa.If)
+		if !ok || !iff.Block().Dominates(ldA.Block()) || iff.Block() == ldA.Block() {
+			return
+		}
+		for _, s2 := range iff.Block().Succs {
+			if len(s2.Preds) == 1 && s2.Dominates(ldA.Block()) {
+				if test == nil || test.Block().Dominates(iff.Block()) {
+					test = iff
+				}
+			}
+		}
+	})
+	if test == nil {
+		c.Bad(rule, key, c.Pos(ldA.Pos()), "map A is loaded unconditionally or its guard cannot be found")
+		return
+	}
+	pure := true
+	seen := 0
+	var walk func(v ssa.Value, d int)
+	walk = func(v ssa.Value, d int) {
+		if d > 6 {
+			pure = false
+			return
+		}
+		switch x := v.(type) {
+		case *ssa.UnOp:
+			if x.Op == token.NOT {
+				walk(x.X, d+1)
+				return
+			}
+			valueOrigins(f, x, func(r ssa.Value) {
+				if r != v {
+					walk(r, d+1)
+				} else {
+					pure = false
+				}
+			})
+		case *ssa.Extract:
+			if v == plotted {
+				seen++
+			} else {
+				pure = false
+			}
+		case *ssa.Phi:
+			for _, e := range x.Edges {
+				walk(e, d+1)
+			}
+		default:
+			pure = false
+		}
+	}
+	walk(test.Cond, 0)
+	if pure && seen > 0 {
+		c.OK(rule, key, c.Pos(ldA.Pos()), "LoadHashMap(pathA) is guarded by !plotted of hmB.Progress() alone")
+	} else {
+		c.Bad(rule, key, c.Pos(ldA.Pos()), "whether a space is opened as finished depends on something other than map B's recorded checkpoint (e.g. on whether the `_a` file exists): a B file with an unfinished checkpoint and no companion is reported ready at 100% and offered for proofs")
 	}
 }
